@@ -125,7 +125,7 @@ func checkExec(ex e2e.Exec, tr *e2e.Trace) (p *problem, mixed bool, withJq bool)
 	hook := tr.Case.Hook(ex.Hook)
 	where0 := fmt.Sprintf("hook %s execution %d", ex.Hook, ex.Seq)
 	if ex.Contexts == nil {
-		return &problem{msg: fmt.Sprintf("%s: binding context file is not a JSON array: %q", where0, ex.Raw)}, false, false
+		return &problem{msg: fmt.Sprintf("OBSERVED: %s: binding context file is not a JSON array (as read by the hook process itself): %q", where0, ex.Raw)}, false, false
 	}
 	types := map[string]bool{}
 	for i, ctx := range ex.Contexts {
